@@ -285,6 +285,18 @@ func (n *Net) deliver(p *Pipe, param int) {
 	if len(p.delivered) > 0 || (len(p.pkts) > 0) {
 		n.fired("coalesced")
 	}
+	// "cut": the sending host dies - exactly AtByte bytes of this direction ever
+	// arrive, then the stream ends (FIN); what was written beyond is lost
+	for i := range p.link.Script {
+		f := &p.link.Script[i]
+		if !f.done && f.Kind == "cut" && f.Dir == p.d && !p.link.Packet && p.Delivered+int64(len(b)) >= f.AtByte {
+			f.done = true
+			b = b[:max(0, f.AtByte-p.Delivered)]
+			p.inflight = nil
+			n.fired("cut")
+			p.fin = true
+		}
+	}
 	if p.link.Packet {
 		p.pkts = append(p.pkts, b)
 	} else {
@@ -338,7 +350,7 @@ func (n *Net) InFlight(p *Pipe) int {
 func (n *Net) checkByteScripts(p *Pipe) {
 	for i := range p.link.Script {
 		f := &p.link.Script[i]
-		if !f.done && f.AfterWrite == 0 && f.AtConsumed == 0 && f.Dir == p.d && p.Delivered >= f.AtByte {
+		if !f.done && f.AfterWrite == 0 && f.AtConsumed == 0 && f.Kind != "cut" && f.Dir == p.d && p.Delivered >= f.AtByte {
 			f.done = true
 			n.applyFault(p.link, f.Kind)
 		}
